@@ -209,10 +209,23 @@ func (x *c20) buildManifest(tag int) manifest.Manifest {
 				ru.Endpoints = nil
 				svc := manifest.Service{Name: fmt.Sprintf("g%ds%d", gi, n), Image: fmt.Sprintf("img:%d", tag), Resources: ru, Count: c}
 				if first {
-					svc.Expose = []manifest.ServiceExpose{{Port: 80, Proto: manifest.TCP, Global: true, Hosts: []string{fmt.Sprintf("h%d.example.com", gi)}}}
+					// the endpoint kind follows the PUBLISHED port ("as" when given, else the container port)
+					http := manifest.ServiceExpose{Port: 80, Proto: manifest.TCP, Global: true, Hosts: []string{fmt.Sprintf("h%d.example.com", gi)}}
+					if r.Bool(30, "mf.http-as-80") {
+						http.Port, http.ExternalPort = 8000, 80
+					}
+					svc.Expose = []manifest.ServiceExpose{http}
 					for _, ep := range rec.Resources.Endpoints {
 						if ep.Kind == atypes.Endpoint_RANDOM_PORT {
-							svc.Expose = append(svc.Expose, manifest.ServiceExpose{Port: 8080, ExternalPort: 8080, Proto: manifest.TCP, Global: true})
+							other := manifest.ServiceExpose{Port: 8080, ExternalPort: 8080, Proto: manifest.TCP, Global: true}
+							switch r.Choose(3, "mf.port-shape") {
+							case 1:
+								other.Port, other.ExternalPort = 80, 8080 // container port 80 published as 8080: not an HTTP ingress
+								r.Count("probe:manifest-port-80-as-other")
+							case 2:
+								other.ExternalPort = 0
+							}
+							svc.Expose = append(svc.Expose, other)
 						}
 					}
 					first = false
@@ -233,6 +246,16 @@ func (x *c20) buildManifest(tag int) manifest.Manifest {
 		m = append(m, mg)
 	}
 	return m
+}
+
+// nextManifest: what the tenant updates the deployment to - a new manifest, or (roll-back) the one
+// before the current one again, so that the same version hash is on chain for a second time.
+func (x *c20) nextManifest() manifest.Manifest {
+	if len(x.versions) >= 2 && x.r.Bool(30, "update.rollback") {
+		x.r.Count("probe:update-rolls-back")
+		return cloneManifest(x.versions[len(x.versions)-2].m)
+	}
+	return x.buildManifest(len(x.versions))
 }
 
 // groupsMatch: harness-side statement of C10's resource clause (multisets of units x counts, endpoint counts).
@@ -713,7 +736,7 @@ func (x *c20) step() {
 	if !x.closed && !x.busy {
 		st = append(st, stim{4, func() {
 			// the tenant updates the deployment: a new manifest becomes the on-chain version
-			nm := x.buildManifest(len(x.versions))
+			nm := x.nextManifest()
 			x.curManifest = nm
 			x.versions = append(x.versions, mfVersion{hash: canonicalHash(nm), from: x.s.Step, m: nm})
 			if fetching {
